@@ -43,7 +43,7 @@ def teardown(ctx):
 
 
 def cases(tier, seed):
-    out = pool.pool_cases(tier, seed, ['c01', 'c02', 'c07', 'c08', 'c13', 'c03', 'c05', 'c06', 'c04', 'c09'], 250 if tier == 'quick' else 2000)
+    out = pool.pool_cases(tier, seed, ['c01', 'c02', 'c07', 'c08', 'c13', 'c03', 'c05', 'c06', 'c04', 'c09'], 250 if tier == 'quick' else 6000)
     if True:
         out.insert(0, pool.ambient_case(PID))
     if tier == 'thorough':
